@@ -194,6 +194,49 @@ def make_api(it, session: Session):
                 raise Unsupported("harness does not match the source: the slice does not define `%s`" % kn)
         return out
 
+    @reg("run_loop_part")
+    def run_loop_part(it_, a, k):
+        """run_loop_part(module, qualname, case_value, part, env) with part in init | step | exit -> dict(env after).
+        init: the assignments before the loop.  step: the loop test (walrus targets land in env) and, if it holds, the
+        body once; '__continue__' tells which.  exit: the value of the `return` behind the loop as '__return__'.
+        Exceptions raised by the real statements propagate to the harness."""
+        import ast as _ast
+        from . import slices
+        module, qualname, case_value, part, env0 = a[0], a[1], a[2], a[3], a[4]
+        m = it.import_module(module)
+        with open(it.sources[module]) as f:
+            tree = _ast.parse(f.read())
+        try:
+            pre, loop, post = slices.loop_parts(tree, qualname, case_value, k.get("nth", 0))
+        except slices.SliceMismatch as e:
+            raise Unsupported("harness does not match the source: %s" % e)
+        vars_ = {kk: vv for kk, vv in it.dict_items(env0)}
+        env = Env(vars_, None, m.ns)
+        out = DictV()
+        if part == "init":
+            for st in pre:
+                it.exec_stmt(st, env)
+        elif part == "step":
+            c = it.eval(loop.test, env)
+            go = ops.truth(it, c, "loop-test@%d" % loop.lineno)
+            if go:
+                for st in loop.body:
+                    it.exec_stmt(st, env)
+            it.dict_set(out, "__continue__", bool(go))
+        elif part == "exit":
+            it.dict_set(out, "__return__", it.eval(post[0].value, env))
+        else:
+            raise Unsupported("run_loop_part: unknown part %r" % (part,))
+        for kk, vv in vars_.items():
+            it.dict_set(out, kk, vv)
+        return out
+
+    @reg("sym_str")
+    def sym_str(it_, a, k):
+        """an arbitrary string of unknown length, opaque to the solver: equal to itself, nothing else is known about it"""
+        it.path.notes.setdefault("inputs", {})[a[0]] = ("int", 0, 10 ** 6)
+        return SymStr([("opaque", ir.var(a[0], 0, 10 ** 6))])
+
     @reg("require")
     def require(it_, a, k):
         what, cond = a
